@@ -91,3 +91,47 @@ func (t Type) Validate() error {
 
 	return nil
 }
+
+// Validate checks every type described by the factory: its arguments and the
+// arguments and constants given to the options it calls.
+func (factory BuilderFactory) Validate() error {
+	for _, arg := range factory.Args {
+		if err := arg.Type.Validate(); err != nil {
+			return fmt.Errorf("argument '%s': %w", arg.Name, err)
+		}
+	}
+
+	for _, call := range factory.OptionCalls {
+		for _, param := range call.Parameters {
+			if err := param.Validate(); err != nil {
+				return fmt.Errorf("option '%s': %w", call.Name, err)
+			}
+		}
+	}
+
+	return nil
+}
+
+func (param OptionCallParameter) Validate() error {
+	if param.Argument != nil {
+		if err := param.Argument.Type.Validate(); err != nil {
+			return fmt.Errorf("argument '%s': %w", param.Argument.Name, err)
+		}
+	}
+
+	if param.Constant != nil {
+		if err := param.Constant.Type.Validate(); err != nil {
+			return fmt.Errorf("constant: %w", err)
+		}
+	}
+
+	if param.Factory != nil {
+		for _, factoryParam := range param.Factory.Parameters {
+			if err := factoryParam.Validate(); err != nil {
+				return err
+			}
+		}
+	}
+
+	return nil
+}
